@@ -4,7 +4,7 @@
 use super::targets::{all_target_spaces, AnyWriter, Target, TargetSpace};
 use crate::engine::guard;
 use crate::engine::json::hex_short;
-use crate::engine::run::{fp_bytes, fp_combine, Ctx, Local};
+use crate::engine::run::{fp_bytes, fp_combine, fp_debug, Ctx, Local};
 use crate::refmodel::model::*;
 use crate::refmodel::read;
 use crate::refmodel::repr::{self, Verdict, WErr};
@@ -71,7 +71,7 @@ fn c06_case(t: &Target, w: &dyn AnyWriter, idx: u64, all: bool, site: &str, l: &
     match w.size() {
         Ok(n) => {
             l.hit("size-ok");
-            l.nontrivial(fp_combine(fp_bytes(format!("{:?}", t).as_bytes()), n as u64));
+            l.nontrivial(fp_combine(fp_debug(t), n as u64));
             if t.whole_packet() && n % 4 != 0 {
                 l.violation(format!("size-not-multiple-of-4:{}", site), || t.short(), || format!("calculate_size() = {}", n));
             }
@@ -166,7 +166,7 @@ fn c17_case(t: &Target, w: &dyn AnyWriter, idx: u64, all: bool, site: &str, l: &
         Err(_) => vec![0, 8, 64, 4096],
     };
     if let Ok(n) = &size {
-        l.nontrivial(fp_combine(fp_bytes(format!("{:?}", t).as_bytes()), *n as u64));
+        l.nontrivial(fp_combine(fp_debug(t), *n as u64));
     }
     for cap in caps {
         let mut a: Vec<u8> = (0..cap).map(pat_a).collect();
@@ -363,7 +363,7 @@ pub fn c16(ctx: &mut Ctx) {
             None => return,
         };
         l.validated += 1;
-        l.nontrivial(fp_bytes(format!("{:?}", t).as_bytes()));
+        l.nontrivial(fp_debug(t));
         match repr::judge(&broken, &res) {
             Verdict::Ok => {
                 if broken.is_empty() {
